@@ -970,12 +970,6 @@ def run_binary(path, names, timeout=60):
 # ------------------------------------------------------------------------------------------------ the check
 
 def load_findings(chk, prop):
-    # TEMPORARY: entries proposed in build/kf-<prop>.json that the lead has not merged into known_findings.json yet are
-    # added to the merged ones (drop this block after merging)
-    p = os.path.join(vlib.VERIF, "build", "kf-%s.json" % prop)
-    if os.path.exists(p):
-        have = {f["id"] for f in chk.findings}
-        chk.findings = list(chk.findings) + [f for f in json.load(open(p)) if f["id"] not in have]
     return {f["id"]: f for f in chk.findings if f.get("status") == "known"}
 
 
@@ -1218,6 +1212,19 @@ def run(chk):
     fails += wfails
     chk.coverage["wide_constructs_oracle_only"] = WIDE_CONSTRUCTS
     chk.coverage.update(wstats)
+    # finding outside the Coq fragment (calls nested in arguments): replay its witness on the real binary
+    if "kwarg-eval-order" in known:
+        d = scratch_dir("c01k")
+        stem = "c01k%dp%d" % (chk.seed % 100000, os.getpid() % 100000)
+        try:
+            ok, msg, path = build_programs(dbg, d, [(stem, known["kwarg-eval-order"]["witness"])])[stem]
+            if ok:
+                p = subprocess.run([path], capture_output=True, text=True, timeout=120)
+                if p.stdout.split() == ["2", "1", "1"]:
+                    stats["known_hits"]["kwarg-eval-order"] = [0]
+        finally:
+            shutil.rmtree(d, ignore_errors=True)
+            clean_gen_target([stem])
     if not stats["model_ok"]:
         res["tie_ok"] = False
         res["broken"].append({"what": "model", "message": "C01/Model.v no longer builds (C04 kernels changed shape?)"})
